@@ -69,6 +69,9 @@ def core(ctx):
 @st.composite
 def _case(draw, ctx):
     ppools = (S.BENIGN,) if draw(st.integers(0, 3)) else (S.BENIGN, ["\\m.x", "\\m_x", "\\core.n1", "\\core_n1", "\\a.b.c"])
+    if draw(st.integers(0, 5)) == 0:
+        # ordinary nets whose names look like a stripped blackbox pin <inst>_<pin>
+        ppools = (S.BENIGN[:10], ["s0_q", "s0_d", "s1_q", "s0_clk", "s1_d", "s0_Y", "s0_A", "s2_q"])
     parent = draw(S.circuit_spec(min_inputs=1, max_inputs=3, min_gates=1, max_gates=5, max_fanin=3, name="p", pools=ppools))
     nch = draw(st.integers(1, 2))
     children = []
@@ -124,7 +127,7 @@ def _case(draw, ctx):
                 nets += [f"{name}_{x[0]}" for x in ch["nodes"]]
     strip = None
     if draw(st.booleans()):
-        strip = {"ignore": draw(st.sampled_from([None, None, "clk", ["d"], ["q", "en"], "A", ["Y", "clk"]]))}
+        strip = {"ignore": draw(st.sampled_from([None, None, "clk", ["d"], ["q", "en"], "A", ["Y", "clk"], "d", "q", ["clk", "d"]]))}
     tables = draw(st.lists(st.integers(0, (1 << 64) - 1), min_size=24, max_size=24))
     return {"parent": parent, "children": children, "steps": steps, "strip": strip, "tables": tables}
 
@@ -288,8 +291,19 @@ def check(case, ctx):
         ign = case["strip"]["ignore"]
         ign_l = [] if ign is None else ([ign] if isinstance(ign, str) else list(ign))
         snap = refsim.snapshot(P)
-        r = need(lib(cg.tx.strip_blackboxes, P, ign) if ign is not None else lib(cg.tx.strip_blackboxes, P),
-                 "strip_blackboxes", f"strip_blackboxes(ignore_pins={ign})")
+        out = lib(cg.tx.strip_blackboxes, P, ign) if ign is not None else lib(cg.tx.strip_blackboxes, P)
+        clash = sorted(n.replace(".", "_") for n in P.graph.nodes
+                       if P.graph.nodes[n]["type"] in ("bb_input", "bb_output") and n.split(".")[-1] not in ign_l
+                       and n.replace(".", "_") in P.graph.nodes)
+        if clash:
+            # renaming would merge a pin with an existing net: the documented behaviour is to refuse
+            if out.ok or out.type != "ValueError":
+                raise Violation("strip|overlap_not_refused", f"pin names {clash} collide with existing nets but strip_blackboxes "
+                                f"{'returned a circuit' if out.ok else 'raised ' + out.text}")
+            labels.add("strip_overlap_refused")
+            ngates = max(specs.spec_stats(s)["n_gates"] for s in case["children"])
+            return {"nontrivial": False, "labels": sorted(labels)}
+        r = need(out, "strip_blackboxes", f"strip_blackboxes(ignore_pins={ign})")
         if refsim.snapshot(P) != snap:
             raise Violation("strip|mutates_argument", "strip_blackboxes modified its argument")
         if r.blackboxes:
